@@ -28,6 +28,7 @@ PROP = {
     "lean_targets": ["MultiProofs.C07", "MultiProofs.GenTieStore"],
     "lean_module": "MultiProofs.C07",
     "theorems": [
+        "Multi.GenTieStore.AR_eq_tie",
         "Multi.GenTieStore.comparison_is_the_code",
         "Multi.GenTieStore.V_lex_tie",
         "Multi.listLex_strictTotal",
